@@ -139,6 +139,7 @@ let nop c =
   | "layer" -> let o = nf c in let m = mode_of_int (nint c) in Target.OpPushLayer (o, m)
   | "poplayer" -> Target.OpPopLayer
   | "fill" -> let p = npath c in let s = nsource c in let o = nopts c in Target.OpFill (p, s, o)
+  | "tfill" -> let p = npath c in let s = nsource c in let o = nopts c in Target.OpFillPre (p, s, o)
   | "stroke" ->
     (* user path and style are for the implementation; the model fills the supplied outline *)
     while peek c <> "SRC" do ignore (next c) done; ignore (next c);
@@ -164,6 +165,7 @@ let nop c =
     Target.OpSurface (k, im.Shader.i_w, im.Shader.i_h, im.Shader.i_data, r, dx, dy)
   | t -> failwith ("bad op " ^ t)
 
+let fbits x = string_of_int (int_of_z (F32.to_bits x))
 (* cheap order-sensitive hash of a byte mask, same function in the harness *)
 let mask_hash l = Stdlib.List.fold_left (fun h z -> ((h * 31) + int_of_z z + 7) land 0xffffffff) 17 l
 
@@ -180,11 +182,13 @@ let state_string (st : Target.dt) =
   let cb = Target.clip_bounds st in
   Buffer.add_string b (Printf.sprintf " C %d %d %d %d %s" (int_of_z cb.Rect.x0) (int_of_z cb.Rect.y0) (int_of_z cb.Rect.x1) (int_of_z cb.Rect.y1)
     (match Target.top_clip_mask st with Some m -> string_of_int (mask_hash m) | None -> "none"));
+  let t = st.Target.d_ctm in
+  Buffer.add_string b (Printf.sprintf " T %s %s %s %s %s %s" (fbits t.PathF.m11) (fbits t.PathF.m12) (fbits t.PathF.m21) (fbits t.PathF.m22) (fbits t.PathF.m31) (fbits t.PathF.m32));
   Buffer.add_string b (if Raster.rast_idle st.Target.d_cur.PathF.rz then " idle" else " busy");
   Buffer.contents b
 
 let is_drawing_op (o : Target.op) = match o with
-  | Target.OpFill _ | Target.OpStroke _ | Target.OpFillRect _ | Target.OpClear _ | Target.OpMask _
+  | Target.OpFill _ | Target.OpFillPre _ | Target.OpStroke _ | Target.OpFillRect _ | Target.OpClear _ | Target.OpMask _
   | Target.OpDrawImageAt _ | Target.OpDrawImageSize _ | Target.OpPopLayer -> true
   | _ -> false
 let exact_coverage_op (o : Target.op) = match o with
@@ -317,7 +321,6 @@ let run_specscene toks =
 
 (* ------------------------------------------------------------------ *)
 (* path engine *)
-let fbits x = string_of_int (int_of_z (F32.to_bits x))
 let ptstr (x, y) = fbits x ^ " " ^ fbits y
 let path_string (p : PathF.path) =
   let ops = p.PathF.p_ops in
